@@ -423,6 +423,12 @@ func propC20(j *Job) {
 		"Xc Xcb W1", "Xa Xc R1", "Xh Xhb W1 Wb R1 Ra", "W1 Q Xs R1", "R1 R1x Xa", "W1 Xs De", "W1 Xa De", "Xcb De", "W1m R1 Xs",
 	}
 	modes := stdModes()
+	// callbacks of two / three streams drained by one SACK, each taking the next stream's handler
+	// away: a handler is read where it is decided that it is called, not later
+	for _, n := range []int{2, 3} {
+		mode := modes[0]
+		j.Explore(fmt.Sprintf("XU/%s/streams%d", mode.Name, n), crossStreamScenario(withBase(mode.A, 1191, 9, 4000), withBase(mode.B, 1191, 99, 4000), n, true), Budget{D: map[bool]int{false: 0, true: 1}[j.Thorough()]}, nil)
+	}
 	for mi, mode := range modes {
 		if mi == 2 && !j.Thorough() {
 			continue
